@@ -66,6 +66,7 @@ type openRec struct {
 	Snap   models.SnapshotMarker
 	Err    string
 	Filter []uint32
+	UUID   uint64 // first failover entry handed to the observer on success (the branch the stream is on)
 }
 
 type fakeClient struct {
@@ -172,6 +173,7 @@ func (f *fakeClient) OpenStream(vb uint16, coll map[uint32]string, off *models.O
 		f.obs[vb] = o
 		// what client.go's OpenStream callback does on success
 		o.SetVbUUID(f.failoverOf(vb)[0].VbUUID)
+		f.opens[len(f.opens)-1].UUID = uint64(f.failoverOf(vb)[0].VbUUID)
 	}
 	f.mu.Unlock()
 	if onOpen != nil {
